@@ -3,6 +3,7 @@
 -/
 import Emu.Driver.Parse
 import Emu.Bt.Server
+import Emu.Gcs.Token
 
 namespace Emu.Driver
 open Emu.Bt
@@ -268,6 +269,22 @@ def handleJudge (rest : List String) : String :=
       -- a row of the given size: one cell whose value has that length
       let mk : Bytes × Nat → Row := fun (k, n) => ⟨k, [⟨[], [⟨[], [⟨0, List.replicate n 0, []⟩]⟩]⟩]⟩
       if sampleExplained (rows.map mk) out then "explained" else "unexplained"
+    | none => "bad-op"
+  | ["token", n] =>
+    -- the page token of a name (wire form, before base64) and what decoding it gives back
+    match Bytes.ofHex n with
+    | some name =>
+      let t := Emu.Gcs.Token.encode name
+      match Emu.Gcs.Token.decode t with
+      | some back => s!"token {Bytes.toHex t} back {Bytes.toHex back}"
+      | none => s!"token {Bytes.toHex t} back malformed"
+    | none => "bad-op"
+  | ["untoken", b] =>
+    match Bytes.ofHex b with
+    | some bytes =>
+      match Emu.Gcs.Token.decode bytes with
+      | some name => s!"name {Bytes.toHex name}"
+      | none => "other"
     | none => "bad-op"
   | _ => "bad-op"
 
